@@ -49,7 +49,13 @@ fn raw_op(u: &mut Unstructured, bursts: bool) -> Result<RawOp> {
         }
         29 => RawOp::WarmInsert { k: u.arbitrary()?, w: u.arbitrary()?, n: u.arbitrary()? },
         30 => RawOp::FreshLookup { sel: u.arbitrary()?, contains: u.arbitrary()? },
-        31 => RawOp::IterAdvance { after: u.arbitrary()?, sel: u.arbitrary()? },
+        31 => {
+            if u.arbitrary::<bool>()? {
+                RawOp::IterAdvance { after: u.arbitrary()?, sel: u.arbitrary()? }
+            } else {
+                RawOp::InsertBatch { items: u.arbitrary()?, n: u.arbitrary()? }
+            }
+        }
         _ => RawOp::Counters,
     })
 }
